@@ -53,6 +53,35 @@ def flatten(n, resolve=None, depth=0):
         if pos < len(n.left.value):
             out.append(('const', n.left.value[pos:]))
         return out
+    if isinstance(n, ast.Call) and isinstance(n.func, ast.Attribute) and n.func.attr == 'format' and isinstance(n.func.value, ast.Constant) \
+            and isinstance(n.func.value.value, str) and not any(isinstance(a, ast.Starred) for a in n.args) and all(k.arg for k in n.keywords):
+        # 'lib{name}'.format(name=x) / '{} {}'.format(a, b): literal pieces and the substituted expressions
+        import string as _string
+        out = []
+        auto = 0
+        kw = dict((k.arg, k.value) for k in n.keywords)
+        try:
+            pieces = list(_string.Formatter().parse(n.func.value.value))
+        except ValueError:
+            return [('expr', n)]
+        for lit, field, spec, conv in pieces:
+            if lit:
+                out.append(('const', lit))
+            if field is None:
+                continue
+            if spec or conv or '.' in field or '[' in field:
+                return [('expr', n)]
+            if field == '':
+                a = n.args[auto] if auto < len(n.args) else None
+                auto += 1
+            elif field.isdigit():
+                a = n.args[int(field)] if int(field) < len(n.args) else None
+            else:
+                a = kw.get(field)
+            if a is None:
+                return [('expr', n)]
+            out.extend(f(a) if _is_strish(a) else [('expr', a)])
+        return out
     if isinstance(n, ast.Call) and isinstance(n.func, ast.Attribute) and n.func.attr == 'join' and len(n.args) == 1:
         sep = f(n.func.value)
         items = n.args[0]
